@@ -560,8 +560,8 @@ def r02_1(cx, R, S):
             # the writer iterates the entries it stored, in index order (one rep over self.inner)
             wrep = next((it for it in wi if it.get("i") == "rep"), None)
             over = None
-            if wrep is not None and wrep["node"].get("k") == "for":
-                it = H.peel(wrep["node"]["iter"])
+            if wrep is not None and U.rep_iter(wrep["node"], wrep) is not None:
+                it = H.peel(U.rep_iter(wrep["node"], wrep))
                 while it.get("k") == "mcall" and it["name"] in ("iter", "into_iter", "iter_mut") and not it["args"]:
                     it = H.peel(it["recv"])
                 root, path = H.place_root(it)
@@ -629,7 +629,7 @@ def _place_key(e):
 
 def _rep_name(ex, rep):
     node = rep["node"]
-    src = rep.get("over") if rep.get("over") is not None else node.get("iter")
+    src = U.rep_iter(node, rep)
     if src is None:
         return "?"
     root, path = H.place_root(src)
@@ -647,7 +647,7 @@ def _count_matches(ex, rep):
     passing the same filter)."""
     cnt = rep["count"]
     node = rep["node"]
-    over = rep.get("over") if rep.get("over") is not None else node.get("iter")
+    over = U.rep_iter(node, rep)
     if cnt.get("len_of") is not None:
         return (_place_key(cnt["len_of"]) == _place_key(over)), "write_slice size closure must write the slice length it is given"
     arg = H.peel(cnt["len"], tries=True)
@@ -685,7 +685,7 @@ def _count_matches(ex, rep):
             for n, ps in H.walk_with_parents(ex.fn["body"]):
                 if n is incs[0]:
                     for q in ps:
-                        if q.get("k") == "for" and _place_key(q["iter"]) == _place_key(over):
+                        if U.rep_iter(q) is not None and _place_key(U.rep_iter(q)) == _place_key(over):
                             same_coll = True
         init = H.let_init_of(ex.fn["body"], l[0])
         zero = init is not None and H.const_value(init) == 0
@@ -1177,15 +1177,16 @@ def _reader_tables(cx, R, S):
     if not (R.anchor("R02.5", "reader second-pass opcode match", p2, sp=rc["sp"]) and R.anchor("R02.5", "reader wide match", w2, sp=rc["sp"])):
         return None
     dec, wdec = {}, {}
+    inl = D.helper_inline(cx.duke)       # an arm body moved into a private helper of class_reader decodes to the same value
     for b in range(256):
-        res, ev = D.eval_arm(p2, b)
+        res, ev = D.eval_arm(p2, b, inline=inl)
         if res[0] in ("v", "st"):
             idx = None
             if res[0] == "v" and res[2] and res[2][0][0] == "st":
                 iv = res[2][0][2].get("index")
                 idx = iv[1] if iv and iv[0] == "i" else None
             dec[b] = (res[1], idx)
-        res, ev = D.eval_arm(p2, 0xc4, {id(w2): ("i", b)})
+        res, ev = D.eval_arm(p2, 0xc4, {id(w2): ("i", b)}, inline=inl)
         if res[0] in ("v", "st"):
             wdec[b] = res[1]
     # operand layouts from the layout extractor (the buffer whose alt has >= 150 arms and typed operands)
@@ -2432,6 +2433,52 @@ class EvalLabels(T.Evaluator):
         return super().call(n, c, args, env)
 
 
+class EvalChecked(T.Evaluator):
+    """Evaluates a `write_usize_as_<t>` primitive for one outcome (Ok / Err) of the checked conversion `<t>::try_from(param)` /
+    `param.try_into()`. The converted value is the opaque token MARK; a cast to another type makes a value opaque (not the token)."""
+    MARK = T.sym("<converted>")
+
+    def __init__(self, t, param, outcome):
+        super().__init__()
+        self.t, self.param, self.outcome = t, param, outcome
+        self.converted = 0
+
+    def ev(self, n, env):
+        if n.get("k") == "cast":
+            v = super().ev(n["e"], env)
+            if (n.get("ty") or "?") == (H.peel(n["e"]).get("ty") or ""):
+                return v
+            return T.sym("(%s as %s)" % (T.show(v), n.get("ty")))
+        return super().ev(n, env)
+
+    def _apply(self, clo, vals):
+        _tag, node, cenv = clo
+        e2 = dict(cenv)
+        for p, a in zip(node["params"], vals):
+            T.match_pat(p, a, e2)
+        try:
+            return self.ev(node["body"], e2)
+        except T.Return as r:
+            return r.v
+
+    def call(self, n, c, args, env):
+        name = H.callee_name(n)
+        res_ty = (n.get("ty") or "").replace(" ", "")
+        if name in ("try_from", "try_into") and res_ty.startswith("core::result::Result<%s," % self.t) and args and args[-1] == T.sym(self.param):
+            self.converted += 1
+            return T.V("Ok", self.MARK) if self.outcome == "Ok" else T.V("Err", T.sym("<conversion error>"))
+        if args and args[0][0] == "v" and args[0][1] in ("Ok", "Err"):
+            isok = args[0][1] == "Ok"
+            if name in ("with_context", "context", "map_err", "or_else") and (isok or name != "or_else"):
+                return args[0]
+            if name in ("map", "and_then") and len(args) == 2 and args[1][0] == "closure":
+                if not isok:
+                    return args[0]
+                r = self._apply(args[1], list(args[0][2]))
+                return T.V("Ok", r) if name == "map" else r
+        return super().call(n, c, args, env)
+
+
 def r02_labels_prims(cx, R, S):
     duke = cx.duke
     LB = "simple_class_writer::labels::Labels"
@@ -2500,16 +2547,22 @@ def r02_labels_prims(cx, R, S):
         fb = duke.body("duke::ClassWrite::write_usize_as_" + t)
         if not R.anchor("R02.1", "fn ClassWrite::write_usize_as_" + t, fb):
             continue
-        pid = H.pat_bindings(fb["params"][1])[0][0]
-        ok = False
-        outer = [n for n in H.walk(fb["body"]) if n.get("k") == "mcall" and n["name"] == "write_" + t]
-        if len(outer) == 1:
-            a = outer[0]["args"][0]
-            conv = [n for n in H.walk(a) if n.get("k") == "call" and H.callee_name(n) == "try_from" and (n.get("callee") or {}).get("self_ty") == t]
-            tries = [n for n in H.walk(a) if n.get("k") == "try"]
-            casts = [n for n in H.walk(fb["body"]) if n.get("k") == "cast"]
-            ok = len(conv) == 1 and H.local_of(conv[0]["args"][0]) and H.local_of(conv[0]["args"][0])[0] == pid and bool(tries) and not casts
-        R.inst("R02.1", "prim:write_usize_as_%s=checked" % t, ok, sp=fb["sp"], expect="self.write_%s(%s::try_from(value)<error>?)" % (t, t),
+        # decided by case analysis on the outcome of the checked conversion (shape-independent: `?`, match, if let, let-else, map/and_then):
+        # conversion succeeds -> exactly one write_<t>, of the converted value; conversion fails -> an error and nothing written
+        got = {}
+        for outcome in ("Ok", "Err"):
+            ev = EvalChecked(t, "value", outcome)
+            res = ev.run_fn(fb, [T.sym("self"), T.sym("value")])
+            writes = [(n, a) for (n, a) in ev.callvals if (H.callee_name(n) or "").startswith("write_")]
+            if outcome == "Ok":
+                good = ev.converted == 1 and len(writes) == 1 and H.callee_name(writes[0][0]) == "write_" + t and \
+                    len(writes[0][1]) == 2 and writes[0][1][0] == T.sym("self") and writes[0][1][1] == EvalChecked.MARK
+            else:
+                good = ev.converted == 1 and not writes and (res[0] == "err" or (res[0] == "v" and res[1] == "Err"))
+            got[outcome] = (good, "%s; writes: %s" % (T.show(res), [T.show(T.V(H.callee_name(n), *a)) for (n, a) in writes]))
+        R.inst("R02.1", "prim:write_usize_as_%s=checked" % t, got["Ok"][0] and got["Err"][0], sp=fb["sp"],
+               expect="%s::try_from(value) = Ok(v): self.write_%s(v) and nothing else; = Err: an error, nothing written" % (t, t),
+               got={k: v[1] for k, v in got.items()},
                detail="a count that does not fit its field must be an error, never a truncated value")
     ws = duke.body("duke::ClassWrite::write_slice")
     if R.anchor("R02.1", "fn ClassWrite::write_slice", ws):
